@@ -8,15 +8,18 @@ HERE = os.path.dirname(os.path.abspath(__file__))
 LEAN = os.path.join(HERE, '..', 'lean', 'RegionsVerif')
 INST = {
     'Real': {
-        'INSTANCE': 'real numbers', 'NUM': 'ℝ', 'NS': 'CircleExactReal',
+        'INSTANCE': 'real numbers', 'NUM': 'ℝ',
         'IMPORTS': 'import Mathlib.Analysis.SpecialFunctions.Sqrt\nimport Mathlib.Analysis.SpecialFunctions.Trigonometric.Inverse',
         'SQRT': 'Real.sqrt', 'ASIN': 'Real.arcsin', 'SIN': 'Real.sin', 'ABS': 'abs',
+        'COS': 'Real.cos', 'PI': 'Real.pi',
         'SECTION_OPEN': 'noncomputable section\nopen Classical', 'SECTION_CLOSE': 'end',
     },
     'Float': {
-        'INSTANCE': 'IEEE doubles', 'NUM': 'Float', 'NS': 'CircleExactFloat',
+        'INSTANCE': 'IEEE doubles', 'NUM': 'Float',
         'IMPORTS': '',
         'SQRT': 'Float.sqrt', 'ASIN': 'Float.asin', 'SIN': 'Float.sin', 'ABS': 'Float.abs',
+        # np.pi as the double 0x400921FB54442D18
+        'COS': 'Float.cos', 'PI': '(Float.ofBits 0x400921FB54442D18)',
         'SECTION_OPEN': 'section', 'SECTION_CLOSE': 'end',
     },
 }
@@ -32,6 +35,8 @@ def main():
         base = fn[:-len('.lean.in')]
         for name, sub in INST.items():
             out = text
+            # the namespace is derived from the template's base name: <base>Real / <base>Float
+            out = out.replace('@NS@', base + name)
             for k, v in sub.items():
                 out = out.replace('@' + k + '@', v)
             path = os.path.join(LEAN, 'Gen', f'{base}{name}.lean')
